@@ -59,6 +59,15 @@ Proof.
   right. right. repeat split.
 Qed.
 
+(* reader o writer on the octets: parsing what the writer emitted and decrypting with the passphrase gives the integers back *)
+Theorem C06_reader_recovers_written : forall (cfb_enc cfb_dec : prim4) (sha1 : bytes -> bytes) (s2k : s2kfn),
+  (forall a k iv x, cfb_dec a k iv (cfb_enc a k iv x) = x) -> (forall x, length (sha1 x) = 20%nat) ->
+  forall u a sp h salt c iv pass ms, wf_form u a sp h salt c iv -> wf_mpis ms ->
+  exists b, s2k_parse (write_secret cfb_enc sha1 s2k (WStd u a sp h salt c iv pass) ms) = Some (inr (BStd b), []) /\
+            unprotect cfb_dec sha1 s2k (length ms) b pass = Some ms.
+Proof. exact reader_recovers_written. Qed.
+Print Assumptions C06_reader_recovers_written.
+
 (* ---- the gate is the only path to acceptance ---- *)
 Theorem C06_unprotect_accept_iff : forall (cfb_dec : prim4) (sha1 : bytes -> bytes) (s2k : s2kfn) n b pass ms r,
   unprotect_std cfb_dec sha1 s2k n b pass = UOk ms r <->
